@@ -185,7 +185,17 @@ fn model_strategy() -> BoxedStrategy<C05Case> {
                         strs = vec![b"/".to_vec(), b"/usr/bin/".to_vec(), b"/etc/".to_vec()];
                     }
                     if *tag == t::FILEDIGESTS {
-                        strs = strs.iter().enumerate().map(|(k, _)| if k % 3 == 0 { vec![] } else { b"e3b0c44298fc1c149afbf4c8996fb92427ae41e4649b934ca495991b7852b855".to_vec() }).collect();
+                        // empty, lower-case, upper-case and mixed-case hex of the right length
+                        strs = strs
+                            .iter()
+                            .enumerate()
+                            .map(|(k, _)| match (k + gn) % 4 {
+                                0 => vec![],
+                                1 => b"e3b0c44298fc1c149afbf4c8996fb92427ae41e4649b934ca495991b7852b855".to_vec(),
+                                2 => b"E3B0C44298FC1C149AFBF4C8996FB92427AE41E4649B934CA495991B7852B855".to_vec(),
+                                _ => b"e3B0c44298Fc1c149afBF4c8996fb92427ae41e4649b934ca495991b7852B855".to_vec(),
+                            })
+                            .collect();
                     }
                     main.insert(*tag, make_val(*ty, &strs, &ints));
                     continue;
